@@ -41,7 +41,7 @@ class TLCResult:
 _RE_STATES = re.compile(r"(\d+) states generated, (\d+) distinct states found")
 _RE_DEPTH = re.compile(r"The depth of the complete state graph search is (\d+)")
 _RE_VIOL = re.compile(r"(?:Invariant|Action property|Temporal property|property) (\S+) is violated")
-_RE_COV = re.compile(r"^<(\w+) line \d+, col \d+ to line \d+, col \d+ of module (\w+)>: (\d+):(\d+)")
+_RE_COV = re.compile(r"^<(\w+) line \d+, col \d+ to line \d+, col \d+ of module (\w+)(?: \([\d ]+\))?>: (\d+):(\d+)")
 
 
 def run_tlc(module, cfg=None, env=None, workers=16, timeout=600, simulate=None,
@@ -127,7 +127,9 @@ def run_tlc(module, cfg=None, env=None, workers=16, timeout=600, simulate=None,
         else:
             mc = _RE_COV.match(ln)
             if mc:
-                res.coverage[mc.group(1)] = (int(mc.group(3)), int(mc.group(4)))
+                # (several reports may be printed, and an action may be listed once per disjunct: keep the maximum)
+                prev = res.coverage.get(mc.group(1), (0, 0))
+                res.coverage[mc.group(1)] = (max(prev[0], int(mc.group(3))), max(prev[1], int(mc.group(4))))
         i += 1
     return res
 
